@@ -287,11 +287,16 @@ func (c *columnKey) Apply(chunk commit.Chunk, r *commit.Reader) {
 		case commit.Put:
 			value := string(r.Bytes())
 
-			fill[offset>>6] |= 1 << (offset & 0x3f)
-			data[offset] = value
+			// If the row is being re-keyed, the previous key must not resolve anymore
 			c.lock.Lock()
+			if fill.Contains(uint32(offset)) && data[offset] != value {
+				delete(c.seek, data[offset])
+			}
 			c.seek[value] = uint32(r.Offset)
 			c.lock.Unlock()
+
+			fill[offset>>6] |= 1 << (offset & 0x3f)
+			data[offset] = value
 
 		case commit.Delete:
 			fill.Remove(uint32(offset))
